@@ -61,6 +61,7 @@ def _build(a, nm, with_tables, sqlr=None, dbmlr=None):
     db.add(Project('p_' + nm, items={'k': nm}))
     db.add(StickyNote('s1', nm))
     db.add(StickyNote('s2', nm))
+    db.add(StickyNote('s3', ''))        # an empty sticky note is still an element of the database
     return db
 
 
@@ -142,7 +143,19 @@ def configured(route, mask, K=1):
                    'TableGroup g {\n  a\n}\n' if a['with_tables'] else 'TableGroup g {\n}\n') + 'Note s1 {\n  \'x\'\n}\n')
             kw = {'sql_renderer': R} if as_sql else {'dbml_renderer': R}
             try:
-                db = docs.parse(doc, **kw)
+                if route == 'parser':
+                    db = docs.parse(doc, **kw)
+                else:
+                    # the same arguments given together with a Path / an open text file (I/O stubbed as in C12)
+                    import pydbml.parser.parser as pp_mod
+                    from harness.c12 import _routes
+                    calls = []
+                    try:
+                        rts = _routes(doc, calls, **kw)
+                        db = rts[1][1]() if route == 'parser_path' else rts[2][1]()
+                    finally:
+                        if 'open' in pp_mod.__dict__:
+                            del pp_mod.open
             except Exception:
                 return 'valid document rejected'
         reached()
@@ -194,8 +207,8 @@ def instances(tier):
     K = 1 if quick else 2
     out = [{'name': 'default_agreement', 'factory': 'default_agreement', 'params': {'K': K}, 'timeout': T1, 'native_limit': 60}]
     masks = [0, 127, 0b0101010, 0b1010101] if quick else list(range(0, 128, 9)) + [127]
-    for route in ('database', 'parser'):
-        for m in masks:
+    for route in ('database', 'parser', 'parser_path', 'parser_file'):
+        for m in (masks if route in ('database', 'parser') else masks[1:3]):
             out.append({'name': f'configured/{route}/mask{m}', 'factory': 'configured', 'params': {'route': route, 'mask': m, 'K': K},
                         'timeout': T1, 'native_limit': 60})
     return out
